@@ -22,7 +22,7 @@ def build_demo(demo, root, exe, asan=False):
             if r.returncode == 0: objs.append(o)
         r = sh("gcc -g -fsanitize=address -w -I%s -I%s/include -I%s/include/libast %s %s %s -o %s" % (root, root, root, demo, " ".join(objs), LIBS, exe))
     else:
-        r = sh("gcc -g -w -I%s -I%s/include -I%s/include/libast %s %s %s -o %s" % (root, root, root, demo, lib, LIBS, exe))
+        r = sh("gcc -g -w -include %s/config.h -I%s -I%s/include -I%s/include/libast %s %s %s -o %s" % (root, root, root, root, demo, lib, LIBS, exe))
     return r.returncode == 0, r.stderr[-500:]
 
 def run_demo(kdir, demo, root, exe, asan):
